@@ -101,6 +101,26 @@ def estimateDeficit (tx : Tx) (fq : FeeQuote) : Except Err Nat := do
   let fee ← estimateFeesPaid tx fq
   pure (if totalIn tx > totalOut tx + fee then 0 else totalOut tx + fee - totalIn tx)
 
+/-- Tx.estimateDeficit with the code's 64-bit arithmetic: `totalOutputSatoshis + fee` is a uint64 sum and wraps.  The
+    driver prints this one (it is what the code computes for every input); the theorems are about `estimateDeficit` and
+    hold for the code wherever outputs + fee stay below 2^64 (`estimateDeficit64_eq`) — beyond that (more than 8000 times
+    the coin supply) the code's answer is the wrapped one, recorded in DESIGN §11.5. -/
+def estimateDeficit64 (tx : Tx) (fq : FeeQuote) : Except Err Nat := do
+  let fee ← estimateFeesPaid tx fq
+  let s := (totalOut tx + fee) % 2 ^ 64
+  pure (if totalIn tx > s then 0 else s - totalIn tx)
+
+theorem estimateDeficit64_eq (tx : Tx) (fq : FeeQuote)
+    (h : ∀ fee, estimateFeesPaid tx fq = .ok fee → totalOut tx + fee < 2 ^ 64) :
+    estimateDeficit64 tx fq = estimateDeficit tx fq := by
+  unfold estimateDeficit64 estimateDeficit
+  cases hf : estimateFeesPaid tx fq with
+  | error e => rfl
+  | ok fee =>
+    have := h fee hf
+    simp only [bind, Except.bind, pure, Except.pure]
+    rw [Nat.mod_eq_of_lt this]
+
 /-! ### change -/
 
 def dustLimit : Nat := 1
